@@ -882,6 +882,7 @@ func (x *runner) directCase(ca *authority, thorough bool) {
 			}); p != "" || errR != nil || !bytes.Equal(leafBytes(lr), leafBytes(lp)) {
 				x.out.Fail(key, fmt.Sprintf("MerkleTreeLeafFromRawChain differs from MerkleTreeLeafFromChain (%v %s)", errR, p))
 			}
+			x.derivedRoute(key, pre, fin, chP, chF, lf, cp, cf)
 			// the SCT list read back from the parsed final certificate
 			got := chF[0].SCTList.SCTList
 			same := len(got) == len(items)
@@ -1196,6 +1197,52 @@ func (x *runner) preVerify(bp, bf parts, root, pi *authority, cls string) {
 	x.out.Count("class:preissuer-verify-embedded")
 }
 
+// derivedRoute: the entry points that DERIVE the entry type from the certificate (ctutil.LeafHash / createLeaf with embedded=false, through
+// Certificate.IsPrecertificate) must land on the same entry as the embedded route — whether the poison is critical or not, and also after
+// a caller has cleared the poison from UnhandledCriticalExtensions (scanner/matcher.go and trillian/integration do before verifying).
+// IsPrecertificate itself is compared with the independent classification "the TBS carries extension 1.3.6.1.4.1.11129.2.4.3".
+func (x *runner) derivedRoute(key string, pre, fin []byte, chP, chF []*x509.Certificate, lf *ct.MerkleTreeLeaf, cp, cf bool) {
+	if lf == nil || len(chP) == 0 || len(chF) == 0 {
+		return
+	}
+	want, err := ct.LeafHashForLeaf(lf)
+	if err != nil {
+		return
+	}
+	sct := &ct.SignedCertificateTimestamp{SCTVersion: ct.V1, Timestamp: 1234}
+	hasPoison := func(tbs []byte) bool {
+		p, ok := splitTBS(tbs)
+		return ok && countExt(p.exts, oidPoison) > 0
+	}
+	for _, cleared := range []bool{false, true} {
+		c0 := *chP[0]
+		if cleared {
+			c0.UnhandledCriticalExtensions = nil
+		}
+		state := fmt.Sprintf("(poison critical=%v, UnhandledCriticalExtensions cleared=%v)", len(chP[0].UnhandledCriticalExtensions) > 0, cleared)
+		var isP bool
+		if p := verifkit.Guard(func() { isP = c0.IsPrecertificate() }); p != "" || isP != hasPoison(pre) {
+			x.out.Fail(key, fmt.Sprintf("IsPrecertificate = %v for a certificate whose TBS carries the CT poison %s %s", isP, state, p))
+		}
+		if !cleared {
+			x.out.T("isprecert "+h(pre), verifkit.B(isP))
+		}
+		chain := append([]*x509.Certificate{&c0}, chP[1:]...)
+		var got [32]byte
+		var errH error
+		if p := verifkit.Guard(func() { got, errH = ctutil.LeafHash(chain, sct, false) }); p != "" || errH != nil || got != want {
+			x.out.Fail(key, fmt.Sprintf("ctutil.LeafHash(precert chain, embedded=false) differs from the leaf hash of the embedded route %s: %v %s", state, errH, p))
+		}
+	}
+	var isF bool
+	verifkit.Guard(func() { isF = chF[0].IsPrecertificate() })
+	if isF != hasPoison(fin) {
+		x.out.Fail(key, fmt.Sprintf("IsPrecertificate = %v for the final certificate", isF))
+	}
+	x.out.T("isprecert "+h(fin), verifkit.B(isF))
+	x.out.Count("class:derived-entry-type-routes")
+}
+
 // readCrit reports whether a raw Extension carries critical TRUE.
 func readCrit(raw []byte) ([]byte, bool) {
 	_, v, _, _, _ := readTLV(raw)
@@ -1327,6 +1374,17 @@ func (x *runner) preRoutes(bp, bf parts, root, pi *authority, cls string, expect
 		if lp == nil || lf == nil || !bytes.Equal(leafBytes(lp), leafBytes(lf)) || len(leafBytes(lp)) == 0 {
 			x.out.Fail(key, "leaf from pre-issuer chain and leaf for embedded SCT differ")
 		}
+		x.derivedRoute(key, pre, fin, chP, chF, lf, cp, cf)
+		// the raw-chain entry point on exactly [precert, preIssuer, issuer] and with one more certificate behind it
+		for _, extra := range [][]ct.ASN1Cert{nil, {{Data: root.der}}, {{Data: root.der}, {Data: root.der}}} {
+			raw := append([]ct.ASN1Cert{{Data: chP[0].Raw}, {Data: pi.der}, {Data: root.der}}, extra...)
+			var lr *ct.MerkleTreeLeaf
+			var errR error
+			if p := verifkit.Guard(func() { lr, errR = ct.MerkleTreeLeafFromRawChain(raw, ct.PrecertLogEntryType, 1234) }); p != "" || errR != nil || !bytes.Equal(leafBytes(lr), leafBytes(lf)) {
+				x.out.Fail(key, fmt.Sprintf("MerkleTreeLeafFromRawChain over %d certificates (precert, pre-issuer, issuer…) differs from the embedded route: %v %s", len(raw), errR, p))
+			}
+		}
+		x.out.Count("class:preissuer-raw-chain-3-4-5")
 		// a chain that stops at the pre-issuer cannot be turned into a leaf
 		x.opLeafPre(pre, chP[:2], cp)
 		// without a pre-issuer argument nothing but the poison changes
